@@ -1,5 +1,5 @@
 SPECIFICATION SpecDesign
-CONSTANT Deviations = {"CloseDoesNotReanalyse", "RenameTaintsCache", "StaleDiagnosticsForDroppedFile", "PrepareRenameSlicesPastEol", "SourceLinePastEof", "CompletionSplitsInsideChar"}
+CONSTANT Deviations = {"CloseDoesNotReanalyse", "RenameTaintsCache", "StaleDiagnosticsForDroppedFile", "PrepareRenameSlicesPastEol", "SourceLinePastEof", "CompletionSplitsInsideChar", "DidChangeFirstEntryWins", "NonFileUriPanics"}
 CONSTANT MaxHist = 0
 VIEW DesignView
 INVARIANT InvFreshShown
